@@ -213,7 +213,7 @@ def extract_inputs(trace):
         v = s.get("value", {})
         if v.get("name") not in ("integer", "pointer", "float"):
             continue
-        path = re.sub(r"\[(\d+)l?\]", r"[\1]", lhs[2:])
+        path = re.sub(r"\[(\d+)l?\]", r"[\1]", lhs[3:])
         if v.get("name") == "integer":
             d = v.get("data", "")
             if d in ("TRUE", "FALSE"):
@@ -250,6 +250,8 @@ def stats_from_messages(doc):
 
 def run_query(q):
     """Returns a result dict; never raises for expected tool failures."""
+    if q.engine == "custom":
+        return q.runner(q)
     t0 = time.time()
     wd = tempfile.mkdtemp(prefix="q-", dir=scratch())
     res = {"name": q.name, "role": q.role, "harness": q.harness, "entry": q.entry, "backend": q.backend,
